@@ -69,6 +69,8 @@ def run_wellformed(ctx, bt, spec):
         msg = str(e)
         if kind.startswith("PaperRun") and spec["dates"] and "price is nan as of" in msg:
             key = "C10/wellformed-raised:paper-copy-runs-on-synthetic-row"
+        if kind.startswith("PaperRun") and "latest price is NaN" in msg and msg.rstrip(". Cannot update node value").endswith(" on 0"):
+            key = "C10/wellformed-raised:shadow-copy-securities-keep-old-root"
         ctx.violation(key, "well-formed backtest raised %s: %s" % (type(e).__name__, msg[:200]), rd)
         ctx.count("wellformed-raised:" + kind)
         return
@@ -240,6 +242,11 @@ def run(ctx, bt, scale=1):
         for sp in json.load(open(pp)):
             ctx.evaluations += 1
             run_wellformed(ctx, bt, sp)
+    pp = os.path.join(HERE, "corpus", "C10_shadow_copy_root.json")
+    if os.path.exists(pp):
+        for sp in json.load(open(pp)):
+            ctx.evaluations += 1
+            run_wellformed(ctx, bt, sp)
     for _ in range(ctx.scale(90, 2500) * scale):
         nested = ctx.rng.random() < 0.35
         spec = R.gen_run_spec(ctx.rng, nested=nested, calendar_children=ctx.rng.random() < 0.7)
@@ -250,6 +257,14 @@ def run(ctx, bt, scale=1):
     for _ in range(ctx.scale(25, 600) * scale):
         ctx.evaluations += 1
         run_fi(ctx, bt, FI.gen_program(ctx.rng))
+    # programs whose children are Security objects constructed up front (not strings created on first use), nested to depth 2,
+    # with and without bid/offer data: completed by the real code, and executed end to end by the model (`whole-run`)
+    from .. import whole_run as W
+    for _ in range(ctx.scale(30, 600) * scale):
+        ctx.evaluations += 1
+        run_wellformed(ctx, bt, W.gen_spec(ctx.rng, depth3=ctx.rng.random() < 0.2))
+    if scale == 1:
+        W.whole_run_protocol(ctx, bt, ctx.scale(25, 500), "whole-run[C10]")
     for _ in range(ctx.scale(2, 30) * scale):
         for c in ill_cases(ctx.rng):
             ctx.evaluations += 1
